@@ -37,9 +37,8 @@ func (m *Manager) Acquire(keys [][]byte) *Guard {
 	indices := make([]int, 0, len(keys))
 body:
 	for _, key := range keys {
-		if len(key) == 0 {
-			continue
-		}
+		// The empty key is latched like any other key: skipping it would let
+		// two requests that both touch it run concurrently.
 		h := kv.MemHash(key)
 		idx := int(h % uint64(len(m.stripes)))
 		// deduplicate identical indices for identical keys
